@@ -1140,7 +1140,15 @@ def pixel_translation(a: GeoBox, b: GeoBox) -> XY[float]:
     #    0  1  ty
     #    0  0   1
     # Such that tx,ty are almost integer.
-    sx, z1, tx, z2, sy, ty, *_ = ~b.affine * a.affine
+    b_inv = ~b.affine
+    sx, z1, _, z2, sy, _, *_ = b_inv * a.affine
+
+    # Translation from the difference of the two origins: large common offset
+    # cancels exactly, it would otherwise limit precision of tx,ty to ~1e-8 of
+    # a pixel for small pixels far away from the CRS origin.
+    dx, dy = a.affine.c - b.affine.c, a.affine.f - b.affine.f
+    tx = b_inv.a * dx + b_inv.b * dy
+    ty = b_inv.d * dx + b_inv.e * dy
 
     if not (
         numpy.isclose(sx, 1)
